@@ -93,13 +93,13 @@ class _Builder:
         )
 
 
-def _build_structure(rng, year, n_hh, archetypes=None):
+def _build_structure(rng, year, n_hh, archetypes=None, cycle=False):
     b = _Builder(rng, year)
     R = rng
     kinds = archetypes or ARCHETYPES
     chosen = []
-    for _ in range(n_hh):
-        k = str(R.choice(kinds))
+    for _i_hh in range(n_hh):
+        k = kinds[_i_hh % len(kinds)] if cycle else str(R.choice(kinds))
         chosen.append(k)
         b.new_hh()
         if k == "single":
@@ -196,7 +196,7 @@ def _pick(rng, n, choices, p_uniform=0.0, lo=0.0, hi=1.0):
 
 
 def population(rng, date, n_hh=8, params=None, archetypes=None, corner=None,
-               heterogeneous=False):
+               heterogeneous=False, cycle=False):
     """Build a valid population DataFrame with every documented input column.
 
     corner: None | "zero" | "huge" | "negative" - value regime for C16-style workloads.
@@ -205,7 +205,7 @@ def population(rng, date, n_hh=8, params=None, archetypes=None, corner=None,
     from _gettsim.config import TYPES_INPUT_VARIABLES
 
     year = date.year
-    rows, chosen = _build_structure(rng, year, n_hh, archetypes)
+    rows, chosen = _build_structure(rng, year, n_hh, archetypes, cycle)
     df = pd.DataFrame(rows)
     n = len(df)
     R = rng
